@@ -2,6 +2,7 @@ import PhysisModel.Proofs.Cmp
 import PhysisModel.Proofs.Layer
 import PhysisModel.Proofs.Tera
 import PhysisModel.Proofs.TeraFloat
+import PhysisModel.Proofs.Pbd
 /-!
 # C16 — auxiliary asset decoders return the stored records
 Property theorems only; helper lemmas live in `Proofs/`.
@@ -88,6 +89,73 @@ example : (Tera.fromExisting (Tera.writeToBuffer ((Spec.Tera.gridPlates [(0, 0xF
   c16_tera_roundtrip _ (by decide)
 /-- the grid value of coordinate −1 is −64.0 = 0xC2800000, of 0 is 64.0 = 0x42800000 -/
 example : Spec.Tera.gridPos 0xFFFF = 0xC2800000 ∧ Spec.Tera.gridPos 0 = 0x42800000 := by decide
+
+/-! ## pre-bone deformer (`src/pbd.rs`)
+
+Full statement (design §6.16):
+  `c16_pbd_chain (f) (a b)` : `WF f → HasSibling a →
+      getDeformMatrices (parse (encode f)) a b = some (bonesAlong (parentChain f a b))`.
+Proved below: the chain walk on the **parsed records** (`Pbd.toModel f` = the header holding exactly the
+items, links, bone names and matrices of `f`), for every forest, every pair of body ids, with termination
+of the Rust `loop` (fuel `links.len() + 1` never runs out on a forest).  The remaining step
+`fromExisting (encode f) = .ok (toModel f)` (offset tables, out-of-line names and matrices) is
+covered by the correspondence only — every `pbd` case runs the real parser and the model's parser
+on the file produced by `Spec.Pbd.encode` — hence `_partial`. -/
+
+/-- `get_deform_matrices(a, b)` returns the named matrices of the first item with body id `a`, then
+those of its ancestors, nearest first, up to but excluding the item with body id `b` (through the root
+when `b` is not an ancestor) — for every forest, any link / item permutation, duplicate ids included. -/
+theorem c16_pbd_chain_partial (f : Spec.Pbd.File) (a b : UInt16) (hwf : Spec.Pbd.WFTree f)
+    (start : Spec.Pbd.Item) (hfind : Spec.Pbd.findItem f a = some start) (hab : a ≠ b)
+    (hs : Spec.Pbd.HasSibling f start) :
+    ∃ bones, Spec.Pbd.deformBones f start b = some bones ∧
+      Pbd.getDeformMatrices (Pbd.toModel f) a b = .ok (bones.map Pbd.convBone) := by
+  obtain ⟨hlen, hdef, hitems, hforest⟩ := hwf
+  have hmem : start ∈ f.items := List.mem_of_find?_eq_some hfind
+  obtain ⟨hli, hlis⟩ := hitems start hmem
+  -- the start link
+  have hnext : f.links[start.linkIndex.toNat]? = some (f.links[start.linkIndex.toNat]) :=
+    List.getElem?_eq_getElem hli
+  have hsib : (f.links[start.linkIndex.toNat]).nextSibling ≠ Spec.Pbd.none16 := by
+    unfold Spec.Pbd.HasSibling at hs; rw [hnext] at hs; exact hs
+  -- its chain ends at a root within `links.length` steps
+  have hsome := hforest _ hli
+  obtain ⟨L, hL⟩ := Option.isSome_iff_exists.mp hsome
+  obtain ⟨above, habove, hwalk⟩ := Pbd.walk_spec f b hdef _ _ _ (Pbd.ancestors_mono _ _ _ _ hL)
+    (f.links[start.linkIndex.toNat]) start [] hnext
+  refine ⟨start.bones ++ (above.takeWhile (·.bodyId != b)).flatMap (·.bones), ?_, ?_⟩
+  · simp [Spec.Pbd.deformBones, hL, habove]
+  · have hfind' : (Pbd.toModel f).items.find? (·.bodyId == a) = some (Pbd.convItem start) := by
+      show (f.items.map Pbd.convItem).find? _ = _
+      rw [List.find?_map]
+      have : ((fun x : Pbd.Item => x.bodyId == a) ∘ Pbd.convItem) = (fun x : Spec.Pbd.Item => x.bodyId == a) := rfl
+      rw [this]
+      unfold Spec.Pbd.findItem at hfind
+      rw [hfind]; rfl
+    have hlm : (Pbd.toModel f).links[Pbd.i16AsUsize (Pbd.convItem start).linkIndex]? =
+        some (Pbd.convLink (f.links[start.linkIndex.toNat])) := by
+      show (f.links.map Pbd.convLink)[Pbd.i16AsUsize start.linkIndex]? = _
+      rw [Pbd.i16AsUsize_small _ hlis, List.getElem?_map, hnext]; rfl
+    have hsib' : (Pbd.convLink (f.links[start.linkIndex.toNat])).nextSibling ≠ 0xFFFF := hsib
+    have hlen' : (Pbd.toModel f).links.length = f.links.length := by
+      show (f.links.map Pbd.convLink).length = _
+      simp
+    simp only [Pbd.getDeformMatrices, hab, if_false, hfind', hlm, hsib', hlen', hwalk, List.nil_append]
+
+/-- a concrete forest: root (id 1) ← child (id 2) ← grandchild (id 3), links stored in reverse order -/
+def exampleForest : Spec.Pbd.File :=
+  ⟨[⟨1, 2, [⟨[0x61], [1,0,0,0,0,1,0,0,0,0,1,0]⟩]⟩, ⟨2, 1, [⟨[0x62], [2,0,0,0,0,2,0,0,0,0,2,0]⟩]⟩,
+    ⟨3, 0, [⟨[0x63], [3,0,0,0,0,3,0,0,0,0,3,0]⟩]⟩],
+   [⟨1, 0xFFFF, 0, 2⟩, ⟨2, 0, 1, 1⟩, ⟨0xFFFF, 1, 2, 0⟩]⟩
+example : Spec.Pbd.WFTree exampleForest := by decide
+example : Spec.Pbd.HasSibling exampleForest ⟨3, 0, [⟨[0x63], [3,0,0,0,0,3,0,0,0,0,3,0]⟩]⟩ := by decide
+/-- 3 → 1: the grandchild's and the child's bones, not the root's -/
+example : Pbd.getDeformMatrices (Pbd.toModel exampleForest) 3 1 =
+    .ok [⟨[0x63], [3,0,0,0,0,3,0,0,0,0,3,0]⟩, ⟨[0x62], [2,0,0,0,0,2,0,0,0,0,2,0]⟩] := by decide
+/-- 3 → 9 (not an ancestor): everything up to and including the root -/
+example : Pbd.getDeformMatrices (Pbd.toModel exampleForest) 3 9 =
+    .ok [⟨[0x63], [3,0,0,0,0,3,0,0,0,0,3,0]⟩, ⟨[0x62], [2,0,0,0,0,2,0,0,0,0,2,0]⟩,
+         ⟨[0x61], [1,0,0,0,0,1,0,0,0,0,1,0]⟩] := by decide
 
 /-! ## layer groups without layers (`src/layer/mod.rs`) -/
 
